@@ -241,15 +241,17 @@ func (s *SerialDB) tryWriteInDbAccessChan(req serialQueryer) error {
 
 // putBatch writes the Batch data into the database
 func (s *SerialDB) putBatch() error {
+	// The batch mutex is held until the old batch reaches LevelDB: otherwise, the acknowledged writes of the old batch
+	// would be visible neither in the (new) batch, nor in LevelDB, and two concurrent flushes could be applied out of order.
 	s.mutBatch.Lock()
+	defer s.mutBatch.Unlock()
+
 	dbBatch, ok := s.batch.(*batch)
 	if !ok {
-		s.mutBatch.Unlock()
 		return common.ErrInvalidBatch
 	}
 	s.sizeBatch = 0
 	s.batch = NewBatch()
-	s.mutBatch.Unlock()
 	verifPoint("serial.putBatch.afterSwap")
 
 	ch := make(chan error)
